@@ -558,8 +558,9 @@ class Connection(ExportImport):
         self._added_during_commit = None
 
     def _store_objects(self, writer, transaction):
+        storing = []  # the object being stored when an error occurs
         try:
-            self._store_objects_found_by(writer, transaction)
+            self._store_objects_found_by(writer, transaction, storing)
         except BaseException:
             # New objects met while serializing a referrer get an oid
             # and this connection as jar at once, but only become known
@@ -570,10 +571,23 @@ class Connection(ExportImport):
             for obj in writer:
                 del obj._p_jar
                 del obj._p_oid
+            # The same goes for a new object whose own serialization or
+            # store failed: it is in _creating, but the cache, which
+            # _invalidate_creating() goes by, does not hold it yet.
+            for obj in storing:
+                oid = obj._p_oid
+                if oid in self._creating and self._cache.get(oid) is not obj:
+                    if self._creating.pop(oid):
+                        del obj._p_jar
+                        del obj._p_oid
+                    else:
+                        # added explicitly: abort() un-adds it
+                        self._added[oid] = obj
             raise
 
-    def _store_objects_found_by(self, writer, transaction):
+    def _store_objects_found_by(self, writer, transaction, storing):
         for obj in writer:
+            storing[:] = [obj]
             oid = obj._p_oid
             serial = getattr(obj, "_p_serial", z64)
 
